@@ -80,7 +80,7 @@ def run(model: Model, rep: Report) -> None:
     dec = model.func("pdfminer.pdftypes.PDFStream.decode")
     g = build_cfg(dec.node, exc_edges=False)
     dn = [n.id for n in g.nodes if n.kind == "stmt" and n.ast is not None and contains_call(n.ast, lambda c: (dotted(c.func) or "") == "self.decipher")]
-    fl = [n.id for n in g.nodes if n.kind == "stmt" and n.ast is not None and contains_call(n.ast, lambda c: (dotted(c.func) or "") == "self.get_filters")]
+    fl = [n.id for n in g.nodes if n.kind in ("stmt", "for") and n.ast is not None and contains_call(n.ast.iter if n.kind == "for" else n.ast, lambda c: (dotted(c.func) or "") == "self.get_filters")]
     dom = g.dominators()
     once = len(dn) == 1 and bool(fl) and all(isinstance(g.nodes[dn[0]].ast, ast.Assign) for _ in [0])
     before = once and dn[0] < fl[0]
